@@ -178,6 +178,9 @@ func cmdC17X(args []string) {
 	writeJSON(*out, map[string]any{"request_calls": calls, "extreme_requests": extreme, "config_calls": cfgCalls, "events": t.n})
 }
 
+var presetACAH, presetACAM, presetVary = []string{"x-requested-with"}, []string{"PATCH"}, []string{"Accept-Encoding"}
+var presetACAO, presetACEH = []string{"https://preset.example"}, []string{"x-preset"}
+
 // walkAll consumes cfgerrors.All(err) in every way a caller can: to the end, and broken off after k = 1, 2, ... items
 // (a range loop and a direct call of the iterator), plus Error() and Unwrap of every yielded error. Panics propagate.
 func walkAll(err error) {
@@ -374,18 +377,23 @@ func cmdC18(args []string) {
 							}
 							hd[field] = v
 							// properties of the request beyond method and header fields: protocol version, body, TLS
-							for ri, reqShape := range []int{0, 4, 5, 1} {
+							for ri, reqShape := range []int{0, 4, 5, 1, 0} {
 								if ri > 0 && !(field == hACRH && (shape == "lines" || shape == "elements" || shape == "allowed-lines" || shape == "allowed-pairs" || shape == "allowed")) && !(field == hOrigin && shape == "bytes") {
 									continue // the other request shapes only on the ladders where work per element / line could hide
 								}
 								req := reqSpec{Method: method, H: hd, Shape: reqShape}.build()
 								w := &nullRW{h: make(http.Header, 8)}
+								preset := ri == 4 // an outer layer has already set CORS and Vary response headers
 								allocs := testing.AllocsPerRun(20, func() {
 									clear(w.h)
+									if preset {
+										w.h["Access-Control-Allow-Headers"], w.h["Access-Control-Allow-Methods"] = presetACAH, presetACAM
+										w.h["Vary"], w.h["Access-Control-Allow-Origin"], w.h["Access-Control-Expose-Headers"] = presetVary, presetACAO, presetACEH
+									}
 									h.ServeHTTP(w, req)
 								})
 								t.emit(map[string]any{"ev": "Alloc", "cfg": kc.name, "dbg": dbg, "field": field, "shape": shape,
-									"method": method + []string{"", "/HTTP1.0", "/HTTP2", "/body"}[ri], "size": n, "allocs": int(allocs + 0.5)})
+									"method": method + []string{"", "/HTTP1.0", "/HTTP2", "/body", "/preset"}[ri], "size": n, "allocs": int(allocs + 0.5)})
 								measures++
 							}
 						}
